@@ -274,7 +274,11 @@ class TreeContextMixin:
                 parent_context = from_scope_node(parent_scope(scope_node.parent))
                 # Only the iterable (after `in`) is not part of the scope, an
                 # `if` or another `for` that comes after it is.
-                iterable = scope_node.children[scope_node.children.index('in') + 1]
+                sync_comp_for = scope_node
+                if sync_comp_for.type == 'comp_for':
+                    # `async for ...`: comp_for is [async, sync_comp_for]
+                    sync_comp_for = sync_comp_for.children[1]
+                iterable = sync_comp_for.children[sync_comp_for.children.index('in') + 1]
                 if iterable.start_pos <= node.start_pos < iterable.end_pos:
                     return parent_context
                 return CompForContext(parent_context, scope_node)
